@@ -66,6 +66,9 @@ theorem username_password_split (s : Bytes) (h1 : 1 ≤ s.length) (h2 : s.length
 
 set_option maxRecDepth 8192 in
 example : (splitUserPass (List.replicate 300 97)).2.length = 45 := by decide
+/-- non-vacuity of the hypotheses: an encoded argument string with escapes and 8-bit bytes -/
+example : 1 ≤ (encode [([107, 61], [59, 255])]).length ∧ (encode [([107, 61], [59, 255])]).length ≤ 510 ∧
+    ∀ b ∈ encode [([107, 61], [59, 255])], b ≠ 0 := by decide
 
 set_option maxRecDepth 8192 in
 /-- **The NUL exclusion is necessary**: a 256-byte argument string ending in NUL is split into a
@@ -79,9 +82,14 @@ theorem nul_password_ambiguity :
 
 /-! ## any segmentation -/
 
-/-- the stream offsets at which the phases (client messages) end -/
-def IsPhaseEnd (ps : List (List Bytes)) (n : Nat) : Prop :=
-  ∃ k, n = ((ps.take k).flatten.flatten).length
+/-- the stream offsets at which the phases (client messages) end: 0, |m₁|, |m₁|+|m₂|, … -/
+def phaseEnds (ps : List (List Bytes)) : List Nat :=
+  (List.range (ps.length + 1)).map fun k => ((ps.take k).flatten.flatten).length
+
+private theorem mem_phaseEnds {ps : List (List Bytes)} {n : Nat} (h : n ∈ phaseEnds ps) :
+    ∃ k, n = ((ps.take k).flatten.flatten).length := by
+  obtain ⟨k, _, hk⟩ := List.mem_map.mp h
+  exact ⟨k, hk.symm⟩
 
 /-- **A client that sends each message only after the previous reply**: `ps` lists, per client
     message, the chunks in which it arrives (any chunking whatsoever, chunks may be empty or
@@ -91,27 +99,45 @@ def IsPhaseEnd (ps : List (List Bytes)) (n : Nat) : Prop :=
     beyond it.  Then the result of `Handshake` (request with Target and Args, or failure class,
     or still waiting) and every reply byte equal the specification parse of the concatenation. -/
 theorem step_by_step_any_chunking (ps : List (List Bytes)) (eof : Bool)
-    (h : ∀ n ∈ flushOffsets ps.flatten.flatten eof, IsPhaseEnd ps n) :
+    (h : ∀ n ∈ flushOffsets ps.flatten.flatten eof, n ∈ phaseEnds ps) :
     run ps.flatten eof = specRun ps.flatten.flatten eof :=
-  run_phases ps eof h
+  run_phases ps eof (fun n hn => mem_phaseEnds (h n hn))
+
+set_option maxRecDepth 8192 in
+/-- non-vacuity: a no-auth exchange whose two messages arrive in two chunks each; also a
+    *malformed* step-by-step exchange (bad command byte) meets the hypothesis -/
+example : ∀ n ∈ flushOffsets [[[5], [1, 0]], [[5, 1, 0, 1, 10, 0, 0, 1], [0, 80]]].flatten.flatten true,
+    n ∈ phaseEnds [[[5], [1, 0]], [[5, 1, 0, 1, 10, 0, 0, 1], [0, 80]]] := by decide
+set_option maxRecDepth 8192 in
+example : ∀ n ∈ flushOffsets [[[5, 1], [0]], [[5, 9], [0, 1]]].flatten.flatten true,
+    n ∈ phaseEnds [[[5, 1], [0]], [[5, 9], [0, 1]]] := by decide
+set_option maxRecDepth 8192 in
+/-- … and a client that pipelines does not -/
+example : ¬ ∀ n ∈ flushOffsets [[[5, 1, 0, 5, 1, 0, 1, 10, 0, 0, 1, 0, 80]]].flatten.flatten true,
+    n ∈ phaseEnds [[[5, 1, 0, 5, 1, 0, 1, 10, 0, 0, 1, 0, 80]]] := by decide
 
 /-- hence two segmentations of the same messages are indistinguishable -/
 theorem chunkings_agree (ps ps' : List (List Bytes)) (eof : Bool)
     (hm : ps.map List.flatten = ps'.map List.flatten)
-    (h : ∀ n ∈ flushOffsets ps.flatten.flatten eof, IsPhaseEnd ps n) :
+    (h : ∀ n ∈ flushOffsets ps.flatten.flatten eof, n ∈ phaseEnds ps) :
     run ps.flatten eof = run ps'.flatten eof := by
   have hs : ps.flatten.flatten = ps'.flatten.flatten := by
     rw [List.flatten_flatten, List.flatten_flatten, hm]
-  have hk : ∀ k, ((ps.take k).flatten.flatten).length = ((ps'.take k).flatten.flatten).length := by
-    intro k
+  have hlen : ps.length = ps'.length := by
+    have := congrArg List.length hm; simpa using this
+  have hpe : phaseEnds ps = phaseEnds ps' := by
+    unfold phaseEnds
+    rw [hlen]
+    apply List.map_congr_left
+    intro k _
     rw [List.flatten_flatten, List.flatten_flatten, List.map_take, List.map_take, hm]
   rw [step_by_step_any_chunking ps eof h, hs]
   symm
   apply step_by_step_any_chunking
   intro n hn
   rw [← hs] at hn
-  obtain ⟨k, hk'⟩ := h n hn
-  exact ⟨k, by rw [hk', hk k]⟩
+  rw [← hpe]
+  exact h n hn
 
 /-- **A conforming client with arguments, every chunking of every message**: the front end
     returns exactly the destination and exactly the arguments that were encoded, and answers with
@@ -139,7 +165,7 @@ theorem honest_exchange (methods : Bytes) (hm : cAuthUserPass ∈ methods) (hl :
       = msgMethods methods ++ (msgAuth (splitUserPass (encode l)).1 (splitUserPass (encode l)).2
           ++ (msgConnect a port ++ [])) := by
     simp [h1, h2, h3]
-  rw [← hflat, step_by_step_any_chunking [cs1, cs2, cs3] eof]
+  rw [← hflat, run_phases [cs1, cs2, cs3] eof]
   · -- the specification parse of the three messages
     rw [hflat, hstream]
     unfold specRun handshake
@@ -175,7 +201,7 @@ theorem honest_exchange_noauth (methods : Bytes) (hm : cAuthNone ∈ methods)
   have hflat : ([cs1, cs3] : List (List Bytes)).flatten = cs1 ++ cs3 := by simp
   have hstream : (cs1 ++ cs3).flatten = msgMethods methods ++ (msgConnect a port ++ []) := by
     simp [h1, h3]
-  rw [← hflat, step_by_step_any_chunking [cs1, cs3] eof]
+  rw [← hflat, run_phases [cs1, cs3] eof]
   · rw [hflat, hstream]
     unfold specRun handshake
     rw [spec_negotiate _ hl, hpick]
